@@ -7,14 +7,17 @@ META = {
     "category": "proof",
     "text": "Lean theorems over a model of the LEB128 encoders/decoders: round trip with byte count for u32/s32/s33/s64 for every value, "
             "length characterisation (minimality), exact value of every encoding, and soundness of each decoder (accepted => terminated, "
-            "within the length limit, returned value is the exact value of the consumed bytes). The model is hand-written and tied to "
+            "within the length limit, returned value is the exact value of the consumed bytes and in the type's range) and completeness (every such sequence is accepted). The model is hand-written and tied to "
             "internal/wasm/leb128 by a correspondence run (exhaustive on short byte strings) plus the property's own oracle run on the real code.",
     "note": "Trusted: Lean kernel; the hand-written model's tie to the Go code is the correspondence run (differential, not a proof); "
             "bitwise OR of disjoint ranges is modelled as addition; python reference decoder used as oracle.",
     "technique": "Lean 4 proof over hand-written model + differential correspondence + exhaustive 32-bit sweep of the real code",
 }
-REQUIRED = ["decodeU32_encU", "decodeS32_encS", "decodeS64_encS",
-            "encU_length_le_iff", "valU_encU", "terminated_encU", "valU_lt"]
+REQUIRED = ["decodeU32_encU", "decodeS32_encS", "decodeS33_encS", "decodeS64_encS",
+            "encU_length_le_iff", "valU_encU", "terminated_encU", "bytes_encU", "valU_lt",
+            "encS_length_le_iff", "valS_encS", "terminated_encS", "bytes_encS", "valS_range",
+            "decodeU32_sound", "decodeS32_sound", "decodeS33_sound", "decodeS64_sound",
+            "decodeU32_complete", "decodeS32_complete", "decodeS33_complete", "decodeS64_complete"]
 
 DECS = {"decu32": (32, False, 5), "decs32": (32, True, 5), "decs33": (33, True, 5), "decs64": (64, True, 10)}
 
